@@ -270,7 +270,11 @@ impl<'a> ExprAST<'a> {
                     "false".into()
                 }
             }
-            String(value) => "\"".to_string() + &value + "\"",
+            String(value) => {
+                // a string literal has no escapes: quote it with the character it does not contain
+                let quote = if value.contains('"') { "'" } else { "\"" };
+                quote.to_string() + &value + quote
+            }
         }
     }
 
@@ -292,35 +296,53 @@ impl<'a> ExprAST<'a> {
     }
 
     fn unary_expr(&self, op: &'a str, rhs: &ExprAST) -> String {
-        op.to_string() + " " + &rhs.expr()
+        // a prefix operator binds tighter than every infix operator and the conditional
+        let right = match rhs {
+            ExprAST::Binary(..) | ExprAST::Ternary(..) => Self::parenthesized(rhs),
+            _ => rhs.expr(),
+        };
+        op.to_string() + " " + &right
     }
 
     fn binary_expr(&self, op: &'a str, lhs: &ExprAST, rhs: &ExprAST) -> String {
-        let left = {
-            let (is, precidence) = lhs.get_precidence();
-            let mut tmp: String = lhs.expr();
-            if is && precidence < InfixOpManager::new().get_precidence(op) {
-                tmp = "(".to_string() + &lhs.expr() + &")".to_string();
-            }
-            tmp
+        let (l_bp, r_bp) = InfixOpManager::new().get_precidence(op);
+        // an operand needs parentheses exactly when the parser would group the
+        // unparenthesized text differently
+        let left = match lhs {
+            ExprAST::Ternary(..) => Self::parenthesized(lhs),
+            ExprAST::Binary(..) if lhs.get_precidence().1 .1 < l_bp => Self::parenthesized(lhs),
+            _ => lhs.expr(),
         };
-        let right = {
-            let (is, precidence) = rhs.get_precidence();
-            let mut tmp = rhs.expr();
-            if is && precidence < InfixOpManager::new().get_precidence(op) {
-                tmp = "(".to_string() + &rhs.expr() + &")".to_string();
-            }
-            tmp
+        let right = match rhs {
+            ExprAST::Ternary(..) => Self::parenthesized(rhs),
+            ExprAST::Binary(..) if !(r_bp < rhs.get_precidence().1 .0) => Self::parenthesized(rhs),
+            _ => rhs.expr(),
         };
         left + " " + op + " " + &right
     }
 
     fn postfix_expr(&self, lhs: &ExprAST, op: &str) -> String {
-        lhs.expr() + " " + op
+        // a postfix operator applies to a single atom
+        let left = match lhs {
+            ExprAST::Unary(..)
+            | ExprAST::Binary(..)
+            | ExprAST::Ternary(..)
+            | ExprAST::Postfix(..) => Self::parenthesized(lhs),
+            _ => lhs.expr(),
+        };
+        left + " " + op
     }
 
     fn ternary_expr(&self, condition: &ExprAST, lhs: &ExprAST, rhs: &ExprAST) -> String {
-        condition.expr() + " ? " + &lhs.expr() + " : " + &rhs.expr()
+        let cond = match condition {
+            ExprAST::Ternary(..) => Self::parenthesized(condition),
+            _ => condition.expr(),
+        };
+        cond + " ? " + &lhs.expr() + " : " + &rhs.expr()
+    }
+
+    fn parenthesized(expr: &ExprAST) -> String {
+        "(".to_string() + &expr.expr() + ")"
     }
 
     fn list_expr(&self, params: Vec<ExprAST>) -> String {
